@@ -172,7 +172,7 @@ def t2_raw(ctx, state, text: str, t1) -> dict:
                  int(_core.f2b(float(rk.get("gamma_importance", 0.05))))],
         "rcap": int(cfg_t2.get("residual_cap_per_turn", 32)), "ksurf": int(cfg.get("k_surface", 32)),
         "ver": int(idx.index_version()) if idx is not None else 0,
-        "index": code([[e.get("id"), e.get("text"), e.get("owner"), e.get("ts")] for e in eps]),
+        "index": code(index_content(idx)) if idx is not None else 0,
         "labelMap": code(sorted(build_label_map(state).items())),
         "rest": code([cfg_t2.get("hybrid", {}), {k: v for k, v in q.items()}]),
     }
@@ -255,8 +255,52 @@ def _jsonable(x):
     return json.loads(json.dumps(_core._canon(x), default=repr))
 
 
-def run_history(scratch: Path, case: dict, caches_on: bool, key_log: Optional[list] = None) -> List[dict]:
-    """Replay the history; returns one observation per `turn` op."""
+def index_content(idx) -> list:
+    """Everything T2 reads from the memory index, in order (ids, texts, owners, dates, importance, exact vectors)."""
+    out = []
+    for e in (getattr(idx, "_eps", []) or []):
+        v = e.get("vec_full")
+        try:
+            vb = [_core.f2b(float(x)) for x in list(v)] if v is not None else None
+        except Exception:
+            vb = repr(v)
+        out.append([e.get("id"), e.get("text"), e.get("owner"), e.get("ts"), e.get("tags"), e.get("aux"), vb])
+    return out
+
+
+def world_versions(wi: int, w) -> dict:
+    """The version components of the cache keys next to the content they stand for (after a mutating op)."""
+    st = w.state
+    store, idx = st.get("store"), st.get("mem_index")
+    rec: Dict[str, Any] = {"w": wi}
+    if store is not None:
+        rec["etag"] = store.version_etag("g:surface")
+        rec["graph"] = code(graph_content(store.get_graph("g:surface")))
+    if idx is not None:
+        rec["ver"] = int(idx.index_version())
+        rec["index"] = code(index_content(idx))
+    return rec
+
+
+def _real_apply_store(store):
+    """The rig's store overrides `apply_deltas` (additive ProposedDelta semantics for the turn's own apply).  Dict
+    deltas ({"op": "upsert_edge"|"upsert_node", ...}) are routed to the REAL `InMemoryGraphStore.apply_deltas`."""
+    from clematis.graph.store import InMemoryGraphStore
+    base = type(store)
+
+    class C05Store(base):  # type: ignore[misc, valid-type]
+        def apply_deltas(self, graph_id, deltas):  # type: ignore[override]
+            if deltas and all(isinstance(d, dict) for d in deltas):
+                return InMemoryGraphStore.apply_deltas(self, graph_id, deltas)
+            return base.apply_deltas(self, graph_id, deltas)
+
+    store.__class__ = C05Store
+
+
+def run_history(scratch: Path, case: dict, caches_on: bool, key_log: Optional[list] = None,
+                trace: Optional[list] = None) -> List[dict]:
+    """Replay the history; returns one observation per `turn` op.  `trace` (optional) receives, after the initial
+    build and after EVERY op, the version components (graph etag, index version) and the content codes per state."""
     mode, cap, ttl = case["mode"], int(case.get("cap", 512)), int(case.get("ttl", 300))
     clock = Clock()
     spy1: list = []
@@ -320,7 +364,11 @@ def run_history(scratch: Path, case: dict, caches_on: bool, key_log: Optional[li
         w = TR.build_world(Path(scratch) / f"w{wi}", sp, fresh_process_state=False)
         if caches_on and mode in ("turn", "all_lru", "all_bytes"):
             w.state["_cache_mgr"] = CapMgr(max_entries=cap, ttl_sec=ttl, time_fn=clock)
+        if w.store is not None and callable(getattr(type(w.store), "apply_deltas", None)):
+            _real_apply_store(w.store)
         worlds.append(w)
+        if trace is not None:
+            trace.append(world_versions(wi, w))
     had = {n: (n in vars(orch), vars(orch).get(n)) for n in ("t1_propagate", "t2_semantic")}
     out: List[dict] = []
     try:
@@ -342,8 +390,19 @@ def run_history(scratch: Path, case: dict, caches_on: bool, key_log: Optional[li
                 w = worlds[op["w"]]
                 ep = dict(op["ep"])
                 from clematis.adapters.embeddings import BGEAdapter
-                ep["vec_full"] = BGEAdapter(dim=int(w.cfg_plain.get("k_surface", 32))).encode([str(ep.get("text", ""))])[0]
+                vec_text = ep.pop("vec_text", None)     # a vector that is not the embedding of the text (re-embedded row)
+                ep["vec_full"] = BGEAdapter(dim=int(w.cfg_plain.get("k_surface", 32))).encode(
+                    [str(ep.get("text", "") if vec_text is None else vec_text)])[0]
                 w.state["mem_index"].add(ep)
+            elif k == "apply":
+                # the REAL apply_changes handing dict deltas to the REAL InMemoryGraphStore.apply_deltas
+                from clematis.engine.apply import apply_changes
+                from types import SimpleNamespace as _NS
+                w = worlds[op["w"]]
+                turn_no += 1
+                ctx = TR.make_ctx(w, turn_no)
+                with TR._env(w):
+                    apply_changes(ctx, w.state, _NS(approved_deltas=copy.deepcopy(op["deltas"])))
             elif k == "turn":
                 turn_no += 1
                 w = worlds[op["w"]]
@@ -372,6 +431,8 @@ def run_history(scratch: Path, case: dict, caches_on: bool, key_log: Optional[li
                                       "raised": run.raised, "version": run.state.get("version_etag")}))
             else:
                 raise TR.RigError(f"unknown op {k}")
+            if trace is not None and "w" in op:
+                trace.append(world_versions(op["w"], worlds[op["w"]]))
     finally:
         for n, (h, prev) in had.items():
             if h:
